@@ -9,8 +9,14 @@ which case the minimal fix is mirrored and proved order-insensitive.  OnceLock f
 a small-step machine: safety for every schedule, progress under round robin.
 
 Tie: the harness runs as N SEPARATE PROCESSES (fresh RandomState seeds) per grammar; the
-transcript of every YaccGrammar/StateGraph/StateTable query (+ parses) and the bytes of the
-generated .rs files (build time and directory removed) must be identical in all of them;
+transcript of every YaccGrammar/StateGraph/StateTable query (+ parses), of the run-time lexer
+definition built from the lexer source (start states; per rule token id, name, regex,
+Rule::start_states() in order, target state) and the bytes of the generated .rs files (build
+time and directory removed) must be identical in all of them.  Lexers: the token lexers of the
+grammars, lexers with 2-7 start states whose rules are active in 2-7 of them (with a parser and
+alone), lexers built alone from rule-id maps with shared ids; token-map modules of
+CTTokenMapBuilder / ct_token_map (unique names, names differing only in case + rename_map,
+many names), each built 3 times per process from freshly constructed maps;
 8 threads first-use one OnceLock-guarded `_reconstitute`; the extracted mirrors are run on
 the implementation's own implicit-token sets / %avoid_insert sets / state graphs / table
 rows under several orders and must reproduce what the implementation printed.
@@ -93,6 +99,44 @@ def lex_source(tokens):
         o.append('%s "%s"' % (rx, t))
     o.append("[ \\t\\n]+ ;")
     return "\n".join(o) + "\n"
+
+
+_STATE_NAMES = ["CMT", "STR", "S0", "S1", "Quote", "b_lock", "HEREDOC", "X9", "Raw"]
+
+
+def start_state_lexer(r, named_rules, nstates=None):
+    """a lexer whose rules are active in 2-7 start states each (inclusive and exclusive states, the `<A,B,…>` lists
+    written in several orders, INITIAL among them, sometimes a state named twice), with push / pop / replace target
+    states.  named_rules: [(regex, token name)].  Returns (text, number of rules with >= 2 start states)."""
+    k = nstates or r.randint(2, 7)
+    states = r.sample(_STATE_NAMES, k)
+    o = ["%%%s %s" % (r.choice("xs"), st) for st in states]
+    o.append("%%")
+    allst = ["INITIAL"] + states
+    multi = 0
+    lines = []
+    for rx, nm in named_rules:
+        m = r.random()
+        if m < 0.8:
+            sts = r.sample(allst, r.randint(2, min(7, len(allst))))
+            if r.random() < 0.3:
+                sts.insert(r.randrange(len(sts) + 1), r.choice(sts))      # a state named twice
+            pre = "<%s>" % ",".join(sts)
+            multi += 1
+        elif m < 0.9:
+            pre = "<%s>" % r.choice(allst)
+        else:
+            pre = ""
+        t = r.random()
+        tgt = "<+%s>" % r.choice(states) if t < 0.2 else "<-%s>" % r.choice(states) if t < 0.3 else "<%s>" % r.choice(allst) if t < 0.36 else ""
+        lines.append('%s%s %s"%s"' % (pre, rx, tgt, nm))
+    ws = list(allst)
+    r.shuffle(ws)
+    lines.append("<%s>[ \\t\\n]+ ;" % ",".join(ws))
+    if len(ws) > 2:
+        lines.append("<%s>#[a-z]* <%s>;" % (",".join(ws[:1] + ws[:0:-1]), r.choice(allst)))
+        multi += 1
+    return "\n".join(o + lines) + "\n", multi + 1
 
 
 class Case:
@@ -276,6 +320,17 @@ def gen_cases(ctx):
         if rng.random() < 0.5:
             g.precs = [(rng.choice(["left", "right", "nonassoc"]), [o]) for o in g.tokens[:rng.randint(1, len(g.tokens) - 1)]]
         add("ambiguous", "ON"[i % 2], g, rnd_opts(g), n_inputs=3)
+    # ---- lexers with START STATES (lexer + parser): rules active in 2-7 start states; the generated lexer module
+    #      quotes every rule's start-state list, the digest prints Rule::start_states() of the run-time definition ----
+    for i in range(ctx.n(12, 40)):
+        r = random.Random(15485863 * i + 7)
+        toks = r.sample(["id", "int", "str", "lb", "rb", "open", "close", "kw_a", "kw_b", "semi", "cm", "bang"], r.randint(3, 9))
+        g = G.Gram(toks, [("S", [[], [('r', 'S'), ('r', 'W')]]), ("W", [[('t', x)] for x in toks])])
+        n0 = len(cases)
+        add("lex_start_states", "ONUG"[i % 4], g, n_inputs=3)
+        if len(cases) > n0:
+            c = cases[-1]
+            c.lex, c.multi_state_rules = start_state_lexer(r, [(x, x) for x in toks], nstates=[2, 3, 5, 7, None][i % 5])
     return cases
 
 
@@ -378,6 +433,20 @@ def lexer_alone_cases(n):
                 cnt[gid] = cnt.get(gid, 0) + 1
         out.append({"shape": shape, "lex": lex, "map": None if shape == "no_map" else mp, "opts": opts,
                     "names_sharing": max(cnt.values()) if shape != "no_map" else 0})
+    # lexers with start states: every named rule is active in 2-7 of them (see start_state_lexer)
+    for i in range(max(6, n // 3)):
+        r = random.Random(32452843 * i + 5)
+        names = r.sample(_LEX_WORDS, r.randint(4, 10))
+        lex, multi = start_state_lexer(r, [("k%dx[0-9]*" % j, nm) for j, nm in enumerate(names)], nstates=[2, 3, 4, 5, 6, 7][i % 6])
+        mp = [(nm, j) for j, nm in enumerate(names)]
+        r.shuffle(mp)
+        opts = {"reps": "3"}
+        for name, vals, p in (("mod", ["lexmod"], 0.3), ("vis", "012345", 0.3), ("ed", ["15", "18", "21"], 0.3),
+                              ("api", ["build", "pf"], 0.4), ("st", ["u8", "u16", "u32"], 0.5)):
+            if r.random() < p:
+                opts[name] = r.choice(list(vals))
+        out.append({"shape": "start_states", "lex": lex, "map": None if i % 4 == 3 else mp, "opts": opts, "names_sharing": 1,
+                    "multi_state_rules": multi})
     return out
 
 
@@ -408,8 +477,8 @@ def check_lexer_alone(ctx, exe, N):
             d = [s.split()[1] for s in parts if s.startswith("DIR ")]
             dirs[k] = d[0] if d else None
             body = [s for s in parts if not s.startswith("DIR ")]
-            for rep_ in range(len(body) // 2):
-                samples.append((k, rep_, body[2 * rep_], body[2 * rep_ + 1]))
+            for rep_ in range(len(body) // 3):
+                samples.append((k, rep_, body[3 * rep_], body[3 * rep_ + 1], body[3 * rep_ + 2]))
         nbuilds += len(samples)
         shapes[c["shape"]] = shapes.get(c["shape"], 0) + 1
         ctx.count("lexer_alone_shape_" + c["shape"])
@@ -429,7 +498,19 @@ def check_lexer_alone(ctx, exe, N):
             ok = False
             continue
         ctx.count("lexer_alone_" + samples[0][2].split()[1])
-        ctx.case("lexer-alone " + sha(llines[ci]), c["names_sharing"] >= 2,
+        if c["shape"] == "start_states":
+            ctx.count("lexer_alone_rules_with_2plus_start_states", c["multi_state_rules"])
+        if len(set(s[4] for s in samples)) > 1:
+            ok = False
+            a = samples[0]
+            b = next(s for s in samples if s[4] != a[4])
+            ctx.violation(dict(base, what="Rule::start_states() of the rules of the run-time lexer definition (LRNonStreamingLexerDef::from_str "
+                                          "of the same source; rules separated by ';', start-state ids by '.') differ between two builds",
+                               build_a={"process": a[0], "repetition": a[1], "start_states_per_rule": a[4][3:]},
+                               build_b={"process": b[0], "repetition": b[1], "start_states_per_rule": b[4][3:]},
+                               distinct_answers=len(set(s[4] for s in samples)),
+                               replay_cmd="echo '%s' | .work/target/release/c15 lexgen   # compare the RS sections" % llines[ci]))
+        ctx.case("lexer-alone " + sha(llines[ci]), c["names_sharing"] >= 2 or c["shape"] == "start_states",
                  {"lexer": c["lex"], "rule_ids_map": c["map"], "settings": c["opts"], "outcome": samples[0][2][:80],
                   "distinct_digests": len(set(s[3] for s in samples))})
         if len(set(s[2] for s in samples)) > 1:
@@ -464,10 +545,165 @@ def check_lexer_alone(ctx, exe, N):
     ctx.coverage["lexer_alone"] = {"cases": len(lcases), "builds_compared": nbuilds, "shapes": shapes,
                                    "rule": "8-17 lexing rule names; rule_ids_map shapes: all names one id, pairs, triples, one group "
                                            "of 6 + unique, random groups of 1-6, unique ids (control), INT_*/ID aliases, names only in "
-                                           "the map / only in the lexer, non-identifier names, sparse ids, no map; random mod_name / "
+                                           "the map / only in the lexer, non-identifier names, sparse ids, no map; lexers with 2-7 start "
+                                           "states (inclusive/exclusive) whose rules are active in 2-7 of them, lists in several orders, a "
+                                           "state named twice, push/pop/replace targets (generated bytes AND Rule::start_states() of the "
+                                           "run-time definition compared); random mod_name / "
                                            "visibility / rust_edition / lexerkind / allow_missing_* / show_warnings / case_insensitive "
                                            "/ StorageT / build() vs deprecated process_file(); %d processes x 3 builds with freshly "
                                            "constructed maps each" % N}
+
+
+def tokmap_cases(n):
+    """token maps for CTTokenMapBuilder: {shape, map [(name, id)], rename [(name, new)] | None, opts, twin_groups}"""
+    out = []
+    shapes = ["unique", "case_twins", "many", "case_twins", "non_identifier", "case_quads", "many_with_twins", "case_twins_fn"]
+    words = [w for w in _LEX_WORDS if w.upper() not in ("T0",)] + ["alpha", "beta", "gamma", "delta", "While", "until", "Loop", "x", "y", "z",
+                                                                    "e", "pi", "tau", "Nil", "true_", "false_"]
+    for i in range(n):
+        r = random.Random(49979687 * i + 11)
+        shape = shapes[i % len(shapes)]
+        names, ren, twins = [], [], 0
+        if shape == "unique":
+            # control: no two names equal up to case
+            seen = set()
+            for w in r.sample(words, r.randint(3, 20)):
+                if w.upper() not in seen:
+                    seen.add(w.upper())
+                    names.append(w)
+        elif shape in ("case_twins", "case_twins_fn", "many_with_twins"):
+            seen = set()
+            base = r.sample(words, r.randint(4, 12) if shape != "many_with_twins" else 30)
+            for w in base:
+                if w.upper() not in seen:
+                    seen.add(w.upper())
+                    names.append(w)
+            if shape == "many_with_twins":
+                names += ["tok%d" % j for j in range(r.randint(40, 90))]
+            for w in r.sample(names[:12], r.randint(1, min(6, len(names[:12])))):
+                tw = w.swapcase() if w.swapcase() != w else None
+                if tw is None or tw in names:
+                    continue
+                names.append(tw)
+                # the rename makes the constants distinct; it names the twin, the original, or both
+                m = r.random()
+                if m < 0.4:
+                    ren.append((tw, "ALT_%d" % len(ren)))
+                elif m < 0.8:
+                    ren.append((w, "ALT_%d" % len(ren)))
+                else:
+                    ren += [(w, "ALT_%d" % len(ren)), (tw, "ALT_%d" % (len(ren) + 1))]
+                twins += 1
+        elif shape == "case_quads":
+            # ab / Ab / aB / AB: four names with one upper-cased form, three of them renamed
+            for stem in r.sample(["ab", "kw", "op", "id"], r.randint(1, 3)):
+                vs = [stem, stem.capitalize(), stem[0] + stem[1:].upper(), stem.upper()]
+                r.shuffle(vs)
+                names += vs
+                ren += [(v, "Q%d_%s" % (j, stem)) for j, v in enumerate(vs[:3])]
+                twins += 1
+            names += r.sample(["INT", "FLOAT", "semi", "comma"], 2)
+        elif shape == "many":
+            names = ["t%03d" % j for j in range(r.randint(60, 140))] + r.sample(_LEX_WORDS, 10)
+        elif shape == "non_identifier":
+            syms = r.sample(["+", "-", "*", "==", "<=", "(", ")", "{", "&&", "->"], r.randint(3, 8))
+            names = r.sample(_LEX_WORDS, r.randint(3, 8)) + syms
+            ren = [(sy, "SYM_%d" % j) for j, sy in enumerate(syms)]
+        r.shuffle(names)
+        ids = list(range(len(names)))
+        if r.random() < 0.4:
+            ids = r.sample(range(0, 250), len(names)) if len(names) < 200 else ids
+        opts = {"reps": "3"}
+        if r.random() < 0.5:
+            opts["st"] = r.choice(["u8", "u16", "u32"]) if max(ids) < 256 else r.choice(["u16", "u32"])
+        if r.random() < 0.5:
+            opts["adc"] = r.choice("01")
+        if shape == "case_twins_fn":
+            opts["fn"] = "1"
+        r.shuffle(ren)
+        out.append({"shape": shape, "map": list(zip(names, ids)), "rename": ren or None, "opts": opts, "twin_groups": twins})
+    return out
+
+
+def tokmap_line(c):
+    return "M %s %s %s" % (",".join("%s=%d" % (core_hex(n), i) for n, i in c["map"]),
+                           "-" if c["rename"] is None else ",".join("%s=%s" % (core_hex(a), core_hex(b)) for a, b in c["rename"]),
+                           ",".join("%s=%s" % kv for kv in sorted(c["opts"].items())) or "-")
+
+
+def check_tokmaps(ctx, exe, N):
+    """(2c) token-map modules written by CTTokenMapBuilder (and the deprecated ct_token_map): N processes x 3 builds each from
+    freshly constructed, equal HashMaps; outcomes and bytes (build time removed) must agree"""
+    tcases = tokmap_cases(ctx.n(32, 96))
+    tlines = [tokmap_line(c) for c in tcases]
+    res = run_procs(exe, "tokmap", tlines, N, env={"C15_KEEP": "1"})
+    ok = True
+    nbuilds = 0
+    shapes = {}
+    for ci, c in enumerate(tcases):
+        rs = [res[k][ci] for k in range(N)]
+        samples, dirs, broken = [], {}, None
+        for k, x in enumerate(rs):
+            parts = x.split(" # ")
+            if not x.startswith("TGEN"):
+                broken = x
+                continue
+            d = [s.split()[1] for s in parts if s.startswith("DIR ")]
+            dirs[k] = d[0] if d else None
+            body = [s for s in parts if not s.startswith("DIR ")]
+            for rep_ in range(len(body) // 2):
+                samples.append((k, rep_, body[2 * rep_], body[2 * rep_ + 1]))
+        nbuilds += len(samples)
+        shapes[c["shape"]] = shapes.get(c["shape"], 0) + 1
+        ctx.count("tokmap_shape_" + c["shape"])
+        ctx.count("tokmap_case_only_twin_groups", c["twin_groups"])
+        base = {"token_map": c["map"], "rename_map": c["rename"], "settings": c["opts"], "shape": c["shape"], "processes": N,
+                "builds_per_process": 3, "entry": "lrlex::ct_token_map (deprecated)" if c["opts"].get("fn") else "lrlex::CTTokenMapBuilder",
+                "replay_cmd": "mkdir -p .work/c15 && echo '%s' | .work/target/release/c15 tokmap   # compare the F digests" % tlines[ci]}
+        if broken is not None:
+            if len(set(x.split()[0] for x in rs)) > 1:
+                ctx.violation(dict(base, what="building a token map hangs/crashes in some processes only", outcomes=sorted(set(x[:160] for x in rs))))
+            else:
+                ctx.violation(dict(base, what="token-map harness mode failed", outcomes=sorted(set(x[:160] for x in rs))), no_input=True)
+            ok = False
+            continue
+        ctx.count("tokmap_" + samples[0][2].split()[1])
+        ctx.case("tokmap " + sha(tlines[ci]), c["twin_groups"] >= 1 or len(c["map"]) >= 40,
+                 {"token_map": c["map"][:12], "rename_map": c["rename"], "settings": c["opts"], "outcome": samples[0][2][:80],
+                  "distinct_digests": len(set(s[3] for s in samples))})
+        if len(set(s[2] for s in samples)) > 1:
+            ok = False
+            ctx.violation(dict(base, what="the same token map, rename map and settings build in some runs and fail in others",
+                               outcomes=sorted(set(s[2][:200] for s in samples))))
+            continue
+        if len(set(s[3] for s in samples)) > 1:
+            ok = False
+            a = samples[0]
+            b = next(s for s in samples if s[3] != a[3])
+            wit = dict(base, what="generated token-map module bytes (build time removed) differ between two builds from equal token maps, "
+                                  "rename maps and settings",
+                       build_a={"process": a[0], "repetition": a[1], "digest": a[3]},
+                       build_b={"process": b[0], "repetition": b[1], "digest": b[3]},
+                       distinct_digests=len(set(s[3] for s in samples)))
+            try:
+                fa = os.path.join(dirs[a[0]], "r%d" % a[1], "tokmap.rs")
+                fb = os.path.join(dirs[b[0]], "r%d" % b[1], "tokmap.rs")
+                la, lb = norm_generated(fa, dirs[a[0]]).splitlines(), norm_generated(fb, dirs[b[0]]).splitlines()
+                ld = first_diff(la, lb)
+                if ld:
+                    wit["first_differing_line"] = {"line": ld[0] + 1, "a": ld[1][:300], "b": ld[2][:300]}
+                if sorted(la) == sorted(lb):
+                    wit["same_lines_in_another_order"] = True
+            except Exception as e:          # the kept directories are only used for the explanation
+                wit["explanation_unavailable"] = str(e)[:100]
+            ctx.violation(wit)
+    ctx.oblige(ok, "generated_bytes_token_map")
+    ctx.coverage["token_maps"] = {"cases": len(tcases), "builds_compared": nbuilds, "shapes": shapes,
+                                  "rule": "CTTokenMapBuilder::new(mod, map)[.rename_map][.allow_dead_code].build() and the deprecated "
+                                          "ct_token_map: maps with unique names (control), names differing only in ASCII case (pairs and "
+                                          "groups of four) made distinct by a rename_map naming either side, 60-150 names, non-identifier "
+                                          "names renamed, random/sparse ids, StorageT u8/u16/u32; %d processes x 3 builds from freshly "
+                                          "constructed equal HashMaps" % N}
 
 
 # ----------------------------------------------------------------------------- running
@@ -677,6 +913,7 @@ def _run(ctx, exe, mexe, rng):
         ctx.count("implicit_%d" % min(c.n_implicit, 3) if c.kind == "E" else "implicit_na")
         ctx.count("avoid_insert_%s" % ("0" if not c.g.avoid_insert else "1" if len(c.g.avoid_insert) == 1 else "2+"))
         ctx.count("conflicts_yes" if (d0.xs or d0.xr) else "conflicts_no")
+        ctx.count("digest_lexer_definition_" + ("ok" if " # LX ok" in ds[0] else "rejected" if " # LX " in ds[0] else "none"))
         if d0.max_sr_per_state() >= 2:
             multi_sr_grammars += 1
         # informational sections (allowed freedoms): only counted
@@ -692,7 +929,10 @@ def _run(ctx, exe, mexe, rng):
         if len(set(hs)) > 1:
             k2 = next(k for k in range(N) if hs[k] != hs[0])
             fd = first_diff(vs[0], vs[k2])
-            wit = dict(base, what="digest of YaccGrammar/StateGraph/StateTable queries differs between two processes",
+            in_lexer = fd[1].startswith(("LX", "LQ", "LU")) or fd[2].startswith(("LX", "LQ", "LU"))
+            wit = dict(base, what="digest of YaccGrammar/StateGraph/StateTable queries differs between two processes" if not in_lexer else
+                                  "the run-time lexer definition (LRNonStreamingLexerDef::from_str of the same lexer source: `LU <rule> <token id> "
+                                  "<name> <regex> <Rule::start_states() in order> <target state>`) differs between two processes",
                        process_a=0, process_b=k2, first_differing_section={"index": fd[0], "a": fd[1], "b": fd[2]},
                        distinct_digests=len(set(hs)), replay_cmd=replay)
             known = None
@@ -710,6 +950,12 @@ def _run(ctx, exe, mexe, rng):
                     ctx.count("implicit_orders_seen_%d" % len(groups))
                     wit["implicit_token_orders_seen"] = [list(o) for o in groups]
                     wit["explained_by"] = "C15_build_implicit_order_insensitive_refuted / C15_build_implicit_sensitive"
+            if in_lexer:
+                wit["lexer"] = c.lex
+                for tag in ("a", "b"):
+                    f = wit["first_differing_section"][tag].split()
+                    if f and f[0] == "LU" and len(f) >= 6:
+                        wit["rule_%s_start_states_%s" % (f[1], tag)] = f[5]
             if known is None:
                 dig_ok = False
             ctx.violation(wit, known_key=known)
@@ -726,6 +972,9 @@ def _run(ctx, exe, mexe, rng):
             gen_ok = False
         else:
             ctx.count("gen_" + ("ok" if "GEN1 ok" in gs[0] else "err"))
+            if c.fam == "lex_start_states":
+                ctx.count("lex_start_states_lexer_and_parser_gen_" + ("ok" if "GEN1 ok" in gs[0] else "err"))
+                ctx.count("lex_start_states_rules_with_2plus_start_states", getattr(c, "multi_state_rules", 0))
             if len(set(" # ".join(f) for f in fl)) > 1:
                 k2 = next(k for k in range(N) if fl[k] != fl[0])
                 fd = first_diff(fl[0], fl[k2])
@@ -882,6 +1131,9 @@ def _run(ctx, exe, mexe, rng):
 
     # ---- (2b) lexers built alone from a user-supplied rule ids map ----
     check_lexer_alone(ctx, exe, N)
+
+    # ---- (2c) token-map modules ----
+    check_tokmaps(ctx, exe, N)
 
     # ---- run the extracted mirrors ----
     mout = core.run_lines([mexe], model_cases)
